@@ -86,6 +86,23 @@ def _helpers(ck: Checker, prog: Program):
         and len(loops[0].body) == 1 and any(call_name(c) == "extend" and unparse(c.args[0]) == unparse(loops[0].target)
                                             for c in calls_in(loops[0]))
     rets = S.returns_of(f)
+    if not good and len(rets) == 1 and not loops:
+        # [entry for sub in X for entry in sub] / list(itertools.chain.from_iterable(X)) / sum(X, []): the same order
+        v = rets[0].value
+        if isinstance(v, ast.Call) and call_name(v) in ("list", "tuple") and len(v.args) == 1:
+            v = v.args[0]
+        if isinstance(v, (ast.ListComp, ast.GeneratorExp)) and len(v.generators) == 2 and not any(g.ifs for g in v.generators) \
+                and isinstance(v.generators[0].iter, ast.Name) and v.generators[0].iter.id == f.params[0] \
+                and unparse(v.generators[1].iter) == unparse(v.generators[0].target) and unparse(v.elt) == unparse(v.generators[1].target):
+            good = True
+        elif isinstance(v, ast.Call) and call_name(v) == "from_iterable" and len(v.args) == 1 and unparse(v.args[0]) == f.params[0]:
+            good = True
+        elif isinstance(v, ast.Call) and call_name(v) == "chain" and len(v.args) == 1 and isinstance(v.args[0], ast.Starred) and unparse(v.args[0].value) == f.params[0]:
+            good = True
+        elif not (isinstance(v, (ast.ListComp, ast.GeneratorExp, ast.Call))):
+            pass
+        else:
+            raise AnalysisError(f"{f.qualname}: how the sub-lists are joined is not recognised")
     if good and len(rets) == 1:
         ck.ok("C11.R1", f.qualname, "flattening preserves order (extend per sub-list)")
     else:
